@@ -17,11 +17,15 @@
       digits of a negative literal;
    4. [piece p ts]: before every rest that is empty or starts with a boundary byte, p lexes to
       ts and the scanner continues with the rest.  Every construct is a piece (induction over
-      the three mutually defined classes). *)
+      the three mutually defined classes; types by [ty_ind'], lx_ty);
+   5. keyed elements: the canonical text lists them sorted by key text, and so does [texpr]
+      (keyed_texts_sorted / keyed_toks_sorted move the sort from the texts / tokens to the
+      elements, lx_keyed lexes the Dict layout); section 8: the order theorems. *)
 From Jen Require Import Base.Bytes Base.Num GoStd.Quote GoStd.IsPrint GoStd.LitEval GoStd.Tokens Gen.Goroot.
 From Jen Require Import Model.Code Model.Naming Model.Render Model.FileRender.
 From Jen Require Import Spec.MiniGo Spec.MiniGoTokens Proofs.QuoteProofs Proofs.LitProofs Proofs.CanonProofs.
-From Coq Require Import ZifyN ZifyNat ZifyBool.
+From Jen Require Import Base.Sort Proofs.DictProofs.
+From Coq Require Import ZifyN ZifyNat ZifyBool Permutation.
 Local Open Scope N_scope.
 
 (* ================================================================== 1. token boundaries *)
@@ -372,7 +376,11 @@ Lemma split_lits :
   (S ": " = S ":" ++ sp) /\ (S "default: " = S "default" ++ S ":" ++ sp) /\
   (S "* " = S "*" ++ sp) /\ (S "[] " = S "[" ++ S "]" ++ sp) /\ (S "map[" = S "map" ++ S "[") /\
   (S "] " = S "]" ++ sp) /\ (S "package " = S "package" ++ sp) /\ (S "const " = S "const" ++ sp) /\
-  (S "type " = S "type" ++ sp).
+  (S "type " = S "type" ++ sp) /\
+  (S " .(" = sp ++ S "." ++ S "(") /\ (S "chan " = S "chan" ++ sp) /\ (S "<- chan " = S "<-" ++ sp ++ S "chan" ++ sp) /\
+  (S "chan <- " = S "chan" ++ sp ++ S "<-" ++ sp) /\ (S "... " = S "..." ++ sp) /\ (S " : " = sp ++ S ":" ++ sp) /\
+  (S "goto " = S "goto" ++ sp) /\ (S " <- " = sp ++ S "<-" ++ sp) /\
+  (S "select " = S "select" ++ sp) /\ (S " .(type)" = sp ++ S "." ++ S "(" ++ S "type" ++ S ")").
 Proof. repeat split; reflexivity. Qed.
 
 Ltac split_lits :=
@@ -511,35 +519,107 @@ Lemma lex_word' w r : word_ok w = true -> hd_is tk_idchar r = false ->
   golex (w ++ r) = pre [(word_class w, w)] (golex r).
 Proof. apply lex_word. Qed.
 
-Lemma lx_ty t : ty_ok t = true -> piece (cty t) (tty t).
+(* `.` before `(`: a type assertion *)
+Lemma g_dot_paren r : golex (S "." ++ S "(" ++ r) = pre [top (S ".")] (golex (S "(" ++ r)).
+Proof. apply lex_op; reflexivity. Qed.
+
+Definition Lt (t : ty) : Prop := ty_ok t = true -> piece (cty t) (tty t).
+
+Lemma lx_param_P p : Lt (snd p) -> param_ok p = true -> piece (cparam p) (tparam p).
 Proof.
-  induction t as [n|t IH|t IH|k IHk v IHv]; cbn [ty_ok]; intros Hok r Hr; cbn [cty tty]; split_lits.
-  - apply g_id; assumption.
-  - repeat lx1. rewrite (IH Hok) by exact Hr. lx_done.
-  - repeat lx1. rewrite (IH Hok) by exact Hr. lx_done.
-  - ok_split Hok. rewrite lex_word' by reflexivity. repeat lx1.
-    rewrite (IHk Hok) by reflexivity. repeat lx1. rewrite (IHv Hok0) by exact Hr. lx_done.
+  unfold param_ok, param_ok_with, cparam, cparam_with, tparam, tparam_with. intros Ht Hok r Hr. ok_split Hok.
+  rewrite <- !app_assoc. repeat lx1. rewrite (Ht Hok0) by exact Hr. lx_done.
 Qed.
 
-Lemma lx_param p : param_ok p = true -> piece (cparam p) (tparam p).
+(* a tag that is not backquotable is written as an interpreted string *)
+Lemma tag_text_quoted kvs : kvs <> [] -> CanBackquote (tag_body kvs) = false -> tag_text kvs = GoQuote (tag_body kvs).
+Proof. destruct kvs; [congruence|]. intros _ H. unfold tag_text. rewrite H. reflexivity. Qed.
+
+Lemma lx_field_P f : Lt (fd_ty f) -> field_ok f = true -> piece (cfield f) (tfield f).
 Proof.
-  unfold param_ok, cparam, tparam. intros Hok r Hr. ok_split Hok. rewrite <- !app_assoc.
-  repeat lx1. rewrite (lx_ty _ Hok0) by exact Hr. lx_done.
+  destruct f as [[n t] kvs].
+  unfold field_ok, field_ok_with, cfield, cfield_with, tfield, tfield_with, fd_name, fd_ty, fd_tag. cbn [fst snd].
+  intros Ht Hok r Hr. apply andb_true_iff in Hok. destruct Hok as [Hok Htag].
+  apply andb_true_iff in Hok. destruct Hok as [Hn Hty]. destruct kvs as [|kv kvs].
+  - rewrite !app_nil_r. rewrite <- !app_assoc. rewrite g_id by first [assumption | reflexivity]. rewrite g_sp.
+    rewrite (Ht Hty) by exact Hr. lx_done.
+  - unfold tag_ok in Htag. apply negb_true_iff in Htag. rewrite (tag_text_quoted (kv :: kvs)) by first [discriminate | exact Htag].
+    rewrite <- !app_assoc. rewrite g_id by first [assumption | reflexivity]. rewrite g_sp.
+    rewrite (Ht Hty) by reflexivity. rewrite g_sp. rewrite g_str. lx_done.
 Qed.
 
-Lemma lx_params ps : forallb param_ok ps = true -> free (cparams ps) (tparams ps).
+Lemma lx_params_P ps : ParamsP Lt ps -> forallb param_ok ps = true -> free (cparams ps) (tparams ps).
 Proof.
-  intros Hok r. unfold cparams, tparams. rewrite <- !app_assoc. rewrite g_fop by in_tac.
+  intros Hp Hok r. unfold cparams, cparams_with, tparams, tparams_with. rewrite <- !app_assoc. rewrite g_fop by in_tac.
   rewrite (lx_join cparam tparam ps) by
-    (first [reflexivity | apply (Forall_ok param_ok); [apply Forall_forall; intros p _; apply lx_param | exact Hok]]).
+    (first [reflexivity | apply (Forall_ok param_ok); [|exact Hok]; eapply Forall_impl; [|exact Hp];
+                          intros p Ht; apply lx_param_P, Ht]).
   rewrite g_fop by in_tac. lx_done.
 Qed.
 
-Lemma lx_result res : opt_ok ty_ok res = true -> piece (cresult res) (topt tty res).
+Lemma lx_results_P res : Forall Lt res -> forallb ty_ok res = true -> piece (cresults res) (tresults res).
 Proof.
-  unfold cresult. destruct res as [t|]; cbn [opt_ok opt_text topt]; [|intros _; exact piece_nil].
-  intros Hok r Hr. rewrite <- !app_assoc. rewrite g_sp. apply lx_ty; assumption.
+  intros Hr Hok. unfold cresults, tresults. destruct res as [|t [|t2 res]]; cbn [cresults_with tresults_with].
+  - exact piece_nil.
+  - inversion Hr; subst. cbn [forallb] in Hok. ok_split Hok. intros r Hb. rewrite <- !app_assoc. rewrite g_sp.
+    match goal with H : Lt t |- _ => apply H; assumption end.
+  - intros r Hb. split_lits. repeat lx1.
+    rewrite (lx_join cty tty (t :: t2 :: res)) by (first [reflexivity | exact (Forall_ok ty_ok _ _ Hr Hok)]).
+    rewrite g_fop by in_tac. lx_done.
 Qed.
+
+Lemma lx_sig_P sg : SigP Lt sg -> sig_ok sg = true -> piece (csig sg) (tsig sg).
+Proof.
+  intros [Hp Hr] Hok r Hb. unfold sig_ok, sig_ok_with in Hok. ok_split Hok.
+  unfold csig, csig_with, tsig, tsig_with. rewrite <- !app_assoc.
+  rewrite (lx_params_P (fst sg) Hp Hok). rewrite (lx_results_P (snd sg) Hr Hok0) by exact Hb. lx_done.
+Qed.
+
+Lemma type_lines_braces w xs : type_lines (w ++ S "{") xs = w ++ braces xs.
+Proof. unfold type_lines, braces. rewrite <- !app_assoc. reflexivity. Qed.
+
+Lemma lx_ty t : ty_ok t = true -> piece (cty t) (tty t).
+Proof.
+  apply (ty_ind' Lt); unfold Lt; cbn [ty_ok].
+  - intros n Hok r Hr. apply g_id; assumption.
+  - intros t0 IH Hok r Hr. cbn [cty tty]. split_lits. repeat lx1. rewrite (IH Hok) by exact Hr. lx_done.
+  - intros t0 IH Hok r Hr. cbn [cty tty]. split_lits. repeat lx1. rewrite (IH Hok) by exact Hr. lx_done.
+  - intros k v IHk IHv Hok r Hr. cbn [cty tty]. split_lits. ok_split Hok. rewrite lex_word' by reflexivity. repeat lx1.
+    rewrite (IHk Hok) by reflexivity. repeat lx1. rewrite (IHv Hok0) by exact Hr. lx_done.
+  - intros n t0 IH Hok r Hr. cbn [cty tty]. split_lits. repeat lx1. rewrite (IH Hok) by exact Hr. lx_done.
+  - intros d t0 IH Hok r Hr. destruct d; cbn [cty tty]; split_lits; repeat lx1; rewrite (IH Hok) by exact Hr; lx_done.
+  - intros t0 IH Hok r Hr. cbn [cty tty]. split_lits. repeat lx1. rewrite (IH Hok) by exact Hr. lx_done.
+  - intros ps res Hp Hr0 Hok r Hr. cbn [cty tty]. split_lits. repeat lx1.
+    rewrite (lx_sig_P (ps, res) (conj Hp Hr0) Hok) by exact Hr. lx_done.
+  - intros fs Hf Hok r Hr. cbn [cty tty].
+    change (S "struct{") with (S "struct" ++ S "{"). rewrite type_lines_braces, <- app_assoc.
+    rewrite lex_word' by reflexivity.
+    rewrite (lx_braces cfield tfield fs)
+      by (apply (Forall_ok field_ok); [|exact Hok]; eapply Forall_impl; [|exact Hf]; intros p Ht; apply lx_field_P; exact Ht).
+    lx_done.
+  - intros ms Hm Hok r Hr. cbn [cty tty].
+    change (S "interface{") with (S "interface" ++ S "{"). rewrite type_lines_braces, <- app_assoc.
+    rewrite lex_word' by reflexivity.
+    rewrite (lx_braces (fun m : str * sig => fst m ++ sp ++ csig (snd m)) (fun m => tid (fst m) :: tsig (snd m)) ms).
+    + lx_done.
+    + apply (Forall_ok (fun m : str * sig => ident_ok (fst m) && sig_ok (snd m))); [|exact Hok].
+      eapply Forall_impl; [|exact Hm]. intros [m sg] Hsg Ho r0 Hr0. cbn [fst snd] in *. ok_split Ho.
+      rewrite <- !app_assoc. repeat lx1. rewrite (lx_sig_P sg Hsg Hok0) by exact Hr0. lx_done.
+Qed.
+
+Lemma all_Lt_params ps : ParamsP Lt ps.
+Proof. apply Forall_forall. intros p _. exact (lx_ty (snd p)). Qed.
+Lemma all_Lt res : Forall Lt res.
+Proof. apply Forall_forall. intros p _. exact (lx_ty p). Qed.
+
+Lemma lx_param p : param_ok p = true -> piece (cparam p) (tparam p).
+Proof. apply lx_param_P. exact (lx_ty (snd p)). Qed.
+
+Lemma lx_params ps : forallb param_ok ps = true -> free (cparams ps) (tparams ps).
+Proof. apply lx_params_P, all_Lt_params. Qed.
+
+Lemma lx_results res : forallb ty_ok res = true -> piece (cresults res) (tresults res).
+Proof. apply lx_results_P, all_Lt. Qed.
 
 (* ---- an expression never starts with `=` (what follows the `:` of a slice) *)
 Lemma letter_no_eq c r : tk_letter c = true -> no_eq (c :: r) = true.
@@ -556,7 +636,10 @@ Proof.
 Qed.
 
 Lemma cty_no_eq t r : ty_ok t = true -> no_eq (cty t ++ r) = true.
-Proof. destruct t; cbn [ty_ok cty]; intros H; [apply ident_no_eq, H | reflexivity..]. Qed.
+Proof.
+  destruct t as [n|t|t|k v|n t|d t|t|ps res|fs|ms]; try destruct d; cbn [ty_ok cty]; intros H;
+    first [apply ident_no_eq, H | reflexivity].
+Qed.
 
 Lemma cexpr_no_eq e : expr_ok e = true -> forall r, no_eq (cexpr e ++ r) = true.
 Proof.
@@ -583,7 +666,9 @@ Proof.
   - intros x sel IH H r. ok_split H. rewrite <- app_assoc. apply IH, H.
   - intros x _ _ r. reflexivity.
   - intros t elts _ H r. ok_split H. rewrite <- app_assoc. apply cty_no_eq, H.
+  - intros t pairs _ H r. ok_split H. rewrite <- app_assoc. apply cty_no_eq, H.
   - intros ps res body _ _ r. reflexivity.
+  - intros x t IH H r. ok_split H. rewrite <- app_assoc. apply IH, H.
 Qed.
 
 Lemma opt_no_eq o r : opt_ok expr_ok o = true -> no_eq r = true -> no_eq (opt_text cexpr o ++ r) = true.
@@ -628,6 +713,46 @@ Proof. intros H Hok. apply lx_opt. exact (OptP_ok expr_ok _ o H Hok). Qed.
 Lemma lx_ostmt o : OptP Ps o -> opt_ok stmt_ok o = true -> piece (opt_text cstmt o) (topt tstmt o).
 Proof. intros H Hok. apply lx_opt. exact (OptP_ok stmt_ok _ o H Hok). Qed.
 
+(* ---- keyed elements, in the order in which they are written *)
+Definition ttoks_pair (kv : expr * expr) : list tok * list tok := (texpr (fst kv), texpr (snd kv)).
+
+Lemma keyed_toks_sorted pairs :
+  map snd (sort_keyed (map (fun kv => (cexpr (fst kv), (texpr (fst kv), texpr (snd kv)))) pairs)) =
+  map ttoks_pair (keyed_sorted pairs).
+Proof.
+  unfold sort_keyed, keyed_sorted.
+  rewrite <- (isort_by_map (fun kv => cexpr (fst kv)) fst (fun kv : expr * expr => (cexpr (fst kv), ttoks_pair kv)))
+    by (intros kv; reflexivity).
+  rewrite map_map. reflexivity.
+Qed.
+
+Definition pair_piece (kv : expr * expr) : Prop :=
+  piece (cexpr (fst kv)) (texpr (fst kv)) /\ piece (cexpr (snd kv)) (texpr (snd kv)) /\ expr_ok (snd kv) = true.
+
+Lemma lx_keyed_lines l : Forall pair_piece l -> forall r,
+  golex (concat_str (map (fun kv => fst kv ++ S ":" ++ snd kv ++ S "," ++ nl) (map ctext_pair l)) ++ r) =
+  pre (concat (map (fun kv => fst kv ++ top (S ":") :: snd kv ++ [top (S ",")]) (map ttoks_pair l))) (golex r).
+Proof.
+  induction 1 as [|kv l (Pk & Pv & Hv) _ IH]; intros r; [cbn; rewrite pre_nil; reflexivity|].
+  cbn [map concat_str concat ctext_pair ttoks_pair fst snd]. rewrite <- !app_assoc.
+  rewrite Pk by reflexivity. rewrite g_colon by (apply cexpr_no_eq, Hv). rewrite Pv by reflexivity.
+  rewrite g_fop by in_tac. rewrite g_nl. rewrite IH. lx_done.
+Qed.
+
+Lemma lx_keyed l : Forall pair_piece l -> piece (keyed_body (map ctext_pair l)) (tkeyed (map ttoks_pair l)).
+Proof.
+  intros H. destruct l as [|a [|b l]].
+  - exact piece_nil.
+  - inversion H as [|? ? (Pk & Pv & Hv) _]; subst. intros r Hr.
+    cbn [map keyed_body tkeyed ctext_pair ttoks_pair fst snd]. rewrite <- !app_assoc.
+    rewrite Pk by reflexivity. rewrite g_colon by (apply cexpr_no_eq, Hv). rewrite Pv by exact Hr. lx_done.
+  - intros r _. change (keyed_body (map ctext_pair (a :: b :: l)))
+      with (nl ++ concat_str (map (fun kv => fst kv ++ S ":" ++ snd kv ++ S "," ++ nl) (map ctext_pair (a :: b :: l)))).
+    change (tkeyed (map ttoks_pair (a :: b :: l)))
+      with (concat (map (fun kv => fst kv ++ top (S ":") :: snd kv ++ [top (S ",")]) (map ttoks_pair (a :: b :: l)))).
+    rewrite <- app_assoc. rewrite g_nl. apply lx_keyed_lines, H.
+Qed.
+
 Ltac begin r Hr :=
   let Hok := fresh "Hok" in
   cbn [expr_ok stmt_ok clause_ok opt_ok]; intros Hok; ok_split Hok; intros r Hr;
@@ -662,9 +787,21 @@ Proof.
   - (* EParen *) intros x IHx. begin r Hr. repeat lx1. ih IHx. repeat lx1. lx_done.
   - (* EComp *) intros t elts IHe. begin r Hr. ihl (lx_ty t ltac:(assumption)). repeat lx1.
     ihl (lx_exprs elts IHe ltac:(assumption)). repeat lx1. lx_done.
+  - (* EKeyed *) intros t pairs IHp. begin r Hr.
+    change (map (fun kv => (cexpr (fst kv), cexpr (snd kv))) pairs) with (map ctext_pair pairs).
+    rewrite keyed_texts_sorted, keyed_toks_sorted.
+    assert (HF : Forall pair_piece (keyed_sorted pairs)).
+    { eapply Permutation_Forall; [apply Permutation_sym, isort_by_perm|].
+      apply (Forall_ok (fun kv => expr_ok (fst kv) && expr_ok (snd kv))); [|assumption].
+      eapply Forall_impl; [|exact IHp]. intros kv [Hk Hv] Ho. apply andb_true_iff in Ho. destruct Ho as [Ho1 Ho2].
+      split; [exact (Hk Ho1)|]. split; [exact (Hv Ho2) | exact Ho2]. }
+    ihl (lx_ty t ltac:(assumption)). repeat lx1.
+    rewrite (lx_keyed _ HF) by reflexivity. repeat lx1. lx_done.
   - (* EFunc *) intros ps res body IHb. begin r Hr. repeat lx1.
-    rewrite (lx_params ps ltac:(assumption)). ihl (lx_result res ltac:(assumption)). repeat lx1.
+    rewrite (lx_params ps ltac:(assumption)). ihl (lx_results res ltac:(assumption)). repeat lx1.
     rewrite (lx_block body IHb ltac:(assumption)). lx_done.
+  - (* EAssert *) intros x t IHx. begin r Hr. ih IHx. repeat lx1. rewrite g_dot_paren. repeat lx1.
+    ihl (lx_ty t ltac:(assumption)). repeat lx1. lx_done.
   - (* SExpr *) intros e IHe. cbn [stmt_ok cstmt tstmt]. exact IHe.
   - (* SAssign *) intros l ls o r0 rs IHl IHls IHr IHrs. begin r Hr.
     ihl (lx_exprs1 l ls IHl IHls ltac:(assumption) ltac:(assumption)).
@@ -712,6 +849,18 @@ Proof.
   - (* SVar *) intros x t e IHe.
     destruct t as [t|], e as [e|]; cbn [OptP] in IHe; begin r Hr; repeat lx1;
       try (ihl (lx_ty t ltac:(assumption)); repeat lx1); try (ih IHe); lx_done.
+  - (* SLabeled *) intros l s IHs. begin r Hr. repeat lx1. ih IHs. lx_done.
+  - (* SGoto *) intros l. begin r Hr. repeat lx1. lx_done.
+  - (* SFallthrough *) begin r Hr. repeat lx1. lx_done.
+  - (* SSend *) intros c v IHc IHv. begin r Hr. ih IHc. repeat lx1. ih IHv. lx_done.
+  - (* SSelect *) intros cls IHc. begin r Hr. repeat lx1.
+    rewrite (lx_braces cclause tclause cls) by exact (Forall_ok clause_ok _ cls IHc ltac:(assumption)). lx_done.
+  - (* STypeSwitch *) intros init bind x cls IHi IHx IHc.
+    assert (Hb : forallb clause_ok cls = true -> free (braces (map cclause cls)) (tbraces (map tclause cls))).
+    { intros Hok. apply lx_braces. exact (Forall_ok clause_ok _ cls IHc Hok). }
+    destruct init as [i|], bind as [b|]; cbn [OptP] in IHi; begin r Hr; repeat lx1;
+      try (ih IHi; repeat lx1); ih IHx; repeat lx1; rewrite g_dot_paren; repeat lx1;
+      rewrite (Hb ltac:(assumption)); lx_done.
   - (* CCase *) intros e es body IHe IHes IHb. begin r Hr. repeat lx1.
     ihl (lx_exprs1 e es IHe IHes ltac:(assumption) ltac:(assumption)).
     rewrite g_colon by reflexivity. repeat lx1.
@@ -719,6 +868,32 @@ Proof.
   - (* CDefault *) intros body IHb. begin r Hr. rewrite lex_word' by reflexivity.
     rewrite g_colon by reflexivity. repeat lx1.
     ihl (lx_body body IHb ltac:(assumption)). lx_done.
+  - (* CComm *) intros s body IHs IHb. begin r Hr. repeat lx1. ih IHs.
+    rewrite g_colon by reflexivity. repeat lx1.
+    ihl (lx_body body IHb ltac:(assumption)). lx_done.
+  - (* CType *) intros t ts body IHb. begin r Hr. repeat lx1.
+    rewrite (lx_join cty tty (t :: ts))
+      by (first [reflexivity | apply (Forall_ok ty_ok); [apply Forall_forall; intros a _; apply lx_ty |
+                               cbn [forallb]; apply andb_true_iff; split; assumption]]).
+    rewrite g_colon by reflexivity. repeat lx1.
+    ihl (lx_body body IHb ltac:(assumption)). lx_done.
+Qed.
+
+(* the part of a keyed literal after its type *)
+Lemma pre_cancel t a b o1 o2 : pre [t] o1 = pre (t :: a) o2 -> b = a -> o1 = pre b o2.
+Proof. intros H ->. destruct o1, o2; cbn [pre app] in *; try discriminate; [injection H as ->|]; reflexivity. Qed.
+
+Lemma lx_keyed_tail pairs : forallb (fun kv => expr_ok (fst kv) && expr_ok (snd kv)) pairs = true ->
+  forall r, bndb r = true ->
+  golex (S " {" ++ keyed_body (sort_keyed (map (fun kv => (cexpr (fst kv), cexpr (snd kv))) pairs)) ++ S "}" ++ r) =
+  pre (top (S "{") ::
+       tkeyed (map snd (sort_keyed (map (fun kv => (cexpr (fst kv), (texpr (fst kv), texpr (snd kv)))) pairs))) ++
+       [top (S "}")]) (golex r).
+Proof.
+  intros Hok r Hr.
+  pose proof (proj1 lex_all (EKeyed (TName (S "a")) pairs)) as H. unfold Pe in H. cbn [expr_ok ty_ok cexpr texpr cty tty] in H.
+  specialize (H Hok r Hr). rewrite <- !app_assoc in H. rewrite g_id in H by reflexivity.
+  eapply pre_cancel; [exact H | reflexivity].
 Qed.
 
 (* ================================================================== 6. the theorems *)
@@ -745,9 +920,16 @@ Qed.
 
 Lemma lx_decl d : decl_ok d = true -> piece (cdecl d) (tdecl d).
 Proof.
-  destruct d as [name ps res body|specs|specs|name t]; cbn [decl_ok cdecl tdecl]; intros Hok; ok_split Hok;
+  destruct d as [name ps res body|recv name ps res body|specs|specs|name t]; cbn [decl_ok cdecl tdecl]; intros Hok; ok_split Hok;
     intros r Hr; split_lits; cbn [app]; repeat lx1.
-  - rewrite (lx_params ps ltac:(assumption)). ihl (lx_result res ltac:(assumption)). repeat lx1.
+  - rewrite (lx_params ps ltac:(assumption)). ihl (lx_results res ltac:(assumption)). repeat lx1.
+    rewrite (lx_block body) by first [assumption | apply Forall_forall; intros s _; exact (proj1 (proj2 lex_all) s)].
+    lx_done.
+  - rewrite (lx_params [recv])
+      by (cbn [forallb]; unfold param_ok, param_ok_with; apply andb_true_iff; split;
+          [apply andb_true_iff; split; assumption | reflexivity]).
+    repeat lx1.
+    rewrite (lx_params ps ltac:(assumption)). ihl (lx_results res ltac:(assumption)). repeat lx1.
     rewrite (lx_block body) by first [assumption | apply Forall_forall; intros s _; exact (proj1 (proj2 lex_all) s)].
     lx_done.
   - rewrite (lx_parens_lines cspec tspec specs)
@@ -879,3 +1061,22 @@ Theorem op_at_longest s o : op_at s = Some o ->
   In o go_ops /\ has_prefix o s = true /\
   forall o', In o' go_ops -> has_prefix o' s = true -> (length o' <= length o)%nat.
 Proof. unfold op_at. apply (find_sorted (fun o => has_prefix o s) go_ops o). exact (proj1 go_ops_sorted). Qed.
+
+(* ================================================================== 8. keyed elements: the order *)
+(* the tokens of a keyed literal are those of the literal whose elements are listed in the
+   order of their key texts ... *)
+Theorem keyed_tokens_sorted t pairs : texpr (EKeyed t pairs) = texpr (EKeyed t (keyed_sorted pairs)).
+Proof. cbn [texpr]. rewrite !keyed_toks_sorted, keyed_sorted_idem. reflexivity. Qed.
+
+(* ... and for a literal whose elements are already in that order, the tokens of the elements as
+   they stand: `k : v` for one, `k : v ,` each for several *)
+Theorem keyed_tokens_in_order t pairs : keyed_sorted pairs = pairs ->
+  texpr (EKeyed t pairs) = tty t ++ top (S "{") :: tkeyed (map ttoks_pair pairs) ++ [top (S "}")].
+Proof. intros E. cbn [texpr]. rewrite keyed_toks_sorted, E. reflexivity. Qed.
+
+Theorem keyed_tokens_perm t pairs pairs' : keys_ok pairs = true -> Permutation pairs pairs' ->
+  texpr (EKeyed t pairs) = texpr (EKeyed t pairs').
+Proof.
+  intros Hk Hp. rewrite (keyed_tokens_sorted t pairs), (keyed_tokens_sorted t pairs').
+  rewrite (keyed_sorted_perm pairs pairs' Hk Hp). reflexivity.
+Qed.
